@@ -30,6 +30,42 @@ def run():
                 bad_w.append(site)
         sc.check(f"{field}:read-only-in-funnel", not bad_r, f".{field} is read only in {sorted(readers)}", f"also read in {bad_r}")
         sc.check(f"{field}:written-only-in", not bad_w, f".{field} is written only in {sorted(writers)}", f"also written in {bad_w}")
+    # UnsupportedError may be raised directly only where a caller converts it into Generator.unsupported():
+    #   - Generator.unsupported / Generator.generate themselves
+    #   - transform functions (module-level functions taking only an expression), which transforms.preprocess wraps in
+    #     `except UnsupportedError: self.unsupported(...)`
+    #   - call sites inside generator methods that are themselves wrapped in try/except UnsupportedError
+    import ast, os
+    from scans.common import REPO, tree_of
+
+    offenders = []
+    for path in files("sqlglot/generator.py", "sqlglot/generators/*.py", "sqlglot/transforms.py", "sqlglot/dialects/*.py"):
+        tree = tree_of(path)
+        rel = os.path.relpath(path, REPO)
+        raisers = set()
+        for fn in [n for n in ast.walk(tree) if isinstance(n, ast.FunctionDef)]:
+            for n in ast.walk(fn):
+                if isinstance(n, ast.Raise) and n.exc is not None and "UnsupportedError" in ast.unparse(n.exc):
+                    raisers.add(fn.name)
+        raisers -= {"unsupported", "generate"}
+        for name in sorted(raisers):
+            # every direct call of a raiser from a generator *method* (first parameter self) must sit inside try/except UnsupportedError
+            for fn in [n for n in ast.walk(tree) if isinstance(n, ast.FunctionDef) and n.args.args and n.args.args[0].arg == "self"]:
+                guarded = set()
+                for t_ in ast.walk(fn):
+                    if isinstance(t_, ast.Try) and any(h.type is not None and "UnsupportedError" in ast.unparse(h.type) for h in t_.handlers):
+                        for st in t_.body:
+                            guarded.update(id(x) for x in ast.walk(st))
+                for c in ast.walk(fn):
+                    if isinstance(c, ast.Call) and isinstance(c.func, ast.Name) and c.func.id == name and id(c) not in guarded:
+                        offenders.append(f"{rel}:{fn.name} calls {name}() outside try/except UnsupportedError")
+            # a generator method that raises UnsupportedError itself bypasses the level
+            for fn in [n for n in ast.walk(tree) if isinstance(n, ast.FunctionDef) and n.args.args and n.args.args[0].arg == "self" and n.name == name]:
+                if rel != "sqlglot/transforms.py" or True:
+                    offenders.append(f"{rel}:{fn.name} raises UnsupportedError directly")
+    sc.check("UnsupportedError:raised-only-through-funnel", not offenders,
+             "UnsupportedError reaches the caller only via Generator.unsupported()/generate(): direct raises live in transform functions whose call sites convert them",
+             f"{offenders[:5]}")
     # parse_into reads e.errors of ParseError objects (not self.errors): confirm it never touches self.errors
     sc.assumptions.append("frame scans are syntactic: getattr/setattr with computed names and aliasing of the parser object under another attribute name are not covered")
     return sc
